@@ -86,6 +86,7 @@ type State struct {
 	onceDone  map[string]Term
 	statics   map[string]Val
 	lastNow   *Term
+	trace     []string
 	loopHeld  []HeldLock
 	assumeTo  *State // evaluation copies forward their assumptions to the real state
 	dryFreshFrom int
@@ -165,6 +166,7 @@ func (st *State) clone() *State {
 		n.statics[k] = v
 	}
 	n.notes = append([]string(nil), st.notes...)
+	n.trace = append([]string(nil), st.trace...)
 	return &n
 }
 
@@ -176,6 +178,15 @@ func (st *State) assume(t Term) {
 	}
 	if st.assumeTo != nil {
 		st.assumeTo.assume(t)
+		return
+	}
+	conjMu.Lock()
+	cs, isConj := conjTable[t.S]
+	conjMu.Unlock()
+	if isConj {
+		for _, c := range cs {
+			st.assume(c)
+		}
 		return
 	}
 	st.pc = append(st.pc, t)
@@ -575,6 +586,19 @@ func (st *State) mapLen(m Val) Term {
 
 // mapCardFacts adds the finite-set facts relating card and dom for map m at the current heap.
 func (st *State) mapCardFacts(m Val, ma mapArrs) {
+	if st.x.quantDepth > 0 {
+		// under a binder: state the facts for all maps of this region at once
+		key := fmt.Sprintf("cardfactsQ|%s|%s", ma.card.S, ma.dom.S)
+		if st.nonnil[key] {
+			return
+		}
+		st.nonnil[key] = true
+		mm, kk := Term{"m!cq", SInt}, Term{"k!cq", SInt}
+		c := Select(ma.card, mm)
+		st.assume(Forall([]Term{mm}, And(Ge(c, TZero), Le(c, Term{"1099511627776", SInt}))))
+		st.assume(Forall([]Term{mm, kk}, Implies(Select(Select(ma.dom, mm), kk), Ge(c, IntLit(1)))))
+		return
+	}
 	card := Select(ma.card, m.T())
 	dom := Select(ma.dom, m.T())
 	key := fmt.Sprintf("cardfacts|%s|%s|%s", card.S, dom.S, m.T().S)
